@@ -22,6 +22,7 @@ type Obligation struct {
 	IsCover bool // sat is the pass
 	Watch   []WatchTerm
 	Extra   []Term // additional assumptions (replay: small-scope bounds)
+	relaxAxioms bool // cover checks: retry without the quantified background axioms
 }
 
 type WatchTerm struct {
